@@ -400,7 +400,11 @@ def write_evidence(a, spec, seed, fn_reports, lemmas, inlined, obligations, nobl
         functions.append({'function': rep['path'], 'source': info.get('path'), 'lines': info.get('lines'), 'sha256': info.get('sha256'),
                           'obligations': len(rep['results']), 'discharged': sum(1 for r in rep['results'] if r['ok']),
                           'paths': rep['stats'].get('paths'), 'statements_interpreted': rep['stats'].get('interpreted'),
-                          'logging_calls_dropped': rep['stats'].get('dropped_logging'), 'solver_time_s': round(sum(r['time_s'] for r in rep['results']), 3),
+                          'logging_calls_dropped': rep['stats'].get('dropped_logging'),
+                          # expressions the contract replaces by a declared abstraction (uninterpreted value of the stated sort)
+                          'abstracted_expressions': sorted(set(rep['stats'].get('abstracted') or []))[:40],
+                          'canaries_not_needed': rep['stats'].get('canaries_not_needed'),
+                          'solver_time_s': round(sum(r['time_s'] for r in rep['results']), 3),
                           'proof': ('not regenerated (%s)' % rep['error']) if rep['error'] else 'regenerated from current source'})
     backends = {}
     for o in obligations:
